@@ -27,7 +27,7 @@ RULE = ("seeded single configurations: d∈{2,3} × N≤14 (every fifth g(r) cas
         "values on a 2-decimal grid (dyadic for 32-bit dtypes).  A g(r) case is judged when every rint argument and every "
         "distance is ≥1e-6 from its flip point; an S(q) case when distinct |q| are ≥1.2e-4 apart (exact ℚ check).  "
         "non-trivial = the weighted histogram / structure factor has a non-zero entry and ≥2 particles enter; distinct = "
-        "distinct literal inputs.  Scale stream (labelled test): conditional_gr on N ≈ 1 100 – 1 700 particles with coarse bins, bool "
+        "distinct literal inputs.  Scale stream (labelled test): conditional_gr on N ≈ 2 000 particles with coarse bins, bool "
         "and real conditions, against the numpy brute force of the statement (per-particle per-bin counts > 127, ~10⁶ pairs)")
 TRUSTED_BASE = [
     "Lean 4.33 kernel; axioms propext, Classical.choice, Quot.sound only; the regenerated dispatch is evaluated by the kernel",
